@@ -8,6 +8,7 @@ import (
 	"path/filepath"
 	"sort"
 	"strings"
+	"sync"
 	"time"
 
 	"github.com/wizenheimer/comet"
@@ -477,6 +478,7 @@ func runC09(r *ev.Run) {
 		r.Eval(nSessions >= 2 && midFlushes >= 1 && rotations >= 1 && len(segs) >= 2, ev.Digest(p.String(), nSessions, midFlushes, len(durable), ci))
 	})
 	c09AckThenRestart(r)
+	c09AddDuringFlush(r)
 	// a store opened with an UNTRAINED template, trained through store.Train after vector-less documents were acknowledged
 	// (C08's stream of that name), carried on through Close and a restart with a trained template
 	runTrainLate(r, true)
@@ -489,6 +491,145 @@ func c09AckThenRestart(r *ev.Run) {
 	ctl.install()
 	defer ctl.uninstall()
 	c10AckThenCrash(r, ctl)
+}
+
+// c09AddDuringFlush: an explicit Flush is held at a point inside it (after it has rotated the writable memtable out); an
+// AddWithID runs beside it and is acknowledged; the Flush returns. Nothing else is written. Then either Close, or a second
+// Flush followed by "the process ends here" (an image of the directory): both acknowledged everything added before them,
+// the late document included.
+func c09AddDuringFlush(r *ev.Run) {
+	ctl := newHookCtl()
+	ctl.install()
+	defer ctl.uninstall()
+	points := []string{"flush.begin", "crash:flush.create.hybrid", "crash:flush.written", "crash:flush.added", "flush.registered", "flush.dropped"}
+	r.Cases("add-during-flush", r.Pick(2, 12)*len(points), func(ci int, rng *rand.Rand) {
+		point := points[ci%len(points)]
+		secondFlush := (ci/len(points))%2 == 1
+		p := storeParams{VecKind: "flat", Text: true, Meta: true, Dim: 3, Metric: comet.Euclidean, CompactionThreshold: 1000,
+			MemtableSizeLimit: []int64{1 << 20, 600}[rng.IntN(2)], FlushThreshold: 1 << 40}
+		dir, err := os.MkdirTemp("", "verif-c09adf-*")
+		if err != nil {
+			panic(err)
+		}
+		defer os.RemoveAll(dir)
+		var log []string
+		rep := func(sig, what string) {
+			r.ViolationAt("add-during-flush", ci, sig, fmt.Sprintf("point=%s second-flush=%v: %s", point, secondFlush, what), map[string]any{"log": log})
+		}
+		s, err := p.open(dir)
+		if err != nil {
+			rep("store.open-error", err.Error())
+			return
+		}
+		closed := false
+		defer func() {
+			if !closed {
+				s.Close()
+			}
+		}()
+		ids := newIDGen(rng)
+		ids.min = 1 << 24
+		acked, ever := map[uint32]bool{}, map[uint32]bool{}
+		var mu sync.Mutex
+		add := func(tag string) {
+			d := genStoreDoc(rng, p, ids.next(), "a")
+			mu.Lock()
+			ever[d.ID] = true
+			mu.Unlock()
+			err := s.AddWithID(d.ID, d.Vec, d.Text, d.Meta)
+			mu.Lock()
+			log = append(log, fmt.Sprintf("%s: add %d -> %v", tag, d.ID, err))
+			if err == nil {
+				acked[d.ID] = true
+			}
+			mu.Unlock()
+		}
+		for i := 0; i < 1+rng.IntN(4); i++ {
+			add("before")
+		}
+		var besideDone chan struct{}
+		ctl.resetTrace(false)
+		ctl.setTarget(point, 1, func([]any) {
+			_, besideDone = runBeside(func() { add("beside the held Flush") }, 150*time.Millisecond)
+		})
+		ferr := s.Flush()
+		fired := ctl.fired()
+		ctl.clearTarget()
+		log = append(log, fmt.Sprintf("Flush -> %v", ferr))
+		if ferr != nil {
+			rep("store.flush-error", ferr.Error())
+			return
+		}
+		if !fired {
+			r.Inconclusive("flush point not reached: " + point)
+			return
+		}
+		select {
+		case <-besideDone:
+		case <-time.After(60 * time.Second):
+			rep("store.add-hangs", "an AddWithID started beside a held Flush did not return within 60 s after the Flush had returned")
+			return
+		}
+		check := func(h comet.HybridSearchIndex, when string) {
+			a := searchAllModalities(h, p)
+			if a.Err != nil {
+				rep("store.search-error", when+": "+a.Err.Error())
+				return
+			}
+			mu.Lock()
+			missing, foreign := a.check(acked, ever)
+			mu.Unlock()
+			if len(foreign) > 0 {
+				rep("store.never-added-id-returned", fmt.Sprintf("%s: %v", when, foreign))
+			}
+			if len(missing) > 0 {
+				rep("store.durable-document-lost."+when, fmt.Sprintf("acknowledged before the %s, missing afterwards: %v", map[bool]string{true: "second Flush", false: "Close"}[secondFlush], missing))
+			}
+		}
+		if secondFlush {
+			if err := s.Flush(); err != nil {
+				rep("store.flush-error", "second Flush: "+err.Error())
+				return
+			}
+			log = append(log, "second Flush -> nil")
+			img, err := readImage(dir)
+			if err != nil {
+				panic(err)
+			}
+			idir, err := os.MkdirTemp("", "verif-c09adfimg-*")
+			if err != nil {
+				panic(err)
+			}
+			defer os.RemoveAll(idir)
+			if err := img.materialise(idir); err != nil {
+				panic(err)
+			}
+			os.Remove(filepath.Join(idir, "LOCK"))
+			rs, err := p.open(idir)
+			if err != nil {
+				rep("store.open-error", "image taken right after the second Flush returned nil: "+err.Error())
+				return
+			}
+			check(rs, "image-right-after-flush-ack")
+			rs.Close()
+		} else {
+			if err := s.Close(); err != nil {
+				rep("store.close-error", err.Error())
+				return
+			}
+			closed = true
+			log = append(log, "Close -> nil")
+			rs, err := p.open(dir)
+			if err != nil {
+				rep("store.open-error", "reopen after Close: "+err.Error())
+				return
+			}
+			check(rs, "after-reopen")
+			rs.Close()
+		}
+		r.Count("add-during-flush:"+point, 1)
+		r.Eval(true, ev.Digest("adf", point, secondFlush, ci))
+	})
 }
 
 func head(l []uint32, n int) []uint32 {
